@@ -97,6 +97,9 @@ type NodeSpec struct {
 	ArtifactType string            `json:"at,omitempty"`
 	Ann          map[string]string `json:"mann,omitempty"`
 	Alg          string            `json:"alg,omitempty"` // "" = sha256
+	// NoAnn: the manifest carries no annotations at all (not even the harness's id
+	// annotation; the generator must then make the manifest distinct by content).
+	NoAnn bool `json:"noAnn,omitempty"`
 	// Title is the file-store name (put on embedding descriptors as the title annotation).
 	Title string `json:"title,omitempty"`
 }
@@ -211,6 +214,9 @@ func Build(specs []NodeSpec) *DAG {
 			ann[k] = v
 		}
 		ann["verif.id"] = fmt.Sprint(i)
+		if s.NoAnn {
+			ann = nil
+		}
 		var mt string
 		var body any
 		switch s.Kind {
